@@ -2,7 +2,8 @@
    ExtrOcamlBasic only: bool, option, unit, list, prod, sumbool, sumor map to
    their OCaml counterparts; N, Z, positive and nat stay the extracted
    inductive types (no OCaml int). *)
-From LLTD Require Import Sys.
+From LLTD Require Import Sys Spec.
 Require Import ExtrOcamlBasic.
 Extraction "model.ml" run_op sys0 world0 default_cfg default_g cfg_of aset_of owned_bytes owned_count
-  mk_rxbuf linux_getters reg_find.
+  mk_rxbuf linux_getters reg_find
+  session_expect mapping_expect ni_expect timeout_of mapping_timeouts.
